@@ -266,6 +266,9 @@ func loadEngine(repo string, patterns []string) (*Engine, error) {
 		}
 	}
 	eng.computePurity()
+	if err := eng.checkPureFresh(); err != nil {
+		return eng, err
+	}
 	return eng, nil
 }
 
@@ -293,6 +296,23 @@ func collectLoops(body *ast.BlockStmt) []token.Pos {
 
 // computePurity: a function is pure if its body contains no heap stores, appends, allocations escaping... conservative:
 // no assignments through pointers/slices/maps/globals and only calls to pure functions / math.
+// checkPureFresh: a `pure` contract makes the result a function of the arguments alone; `fresh(result...)` says the
+// result is allocated during each call. Two calls with equal arguments would then return the same reference that is
+// fresh for both, which is contradictory (every clause calling it twice becomes vacuous): rejected at load time.
+func (eng *Engine) checkPureFresh() error {
+	for _, ct := range eng.contracts {
+		if !ct.Pure {
+			continue
+		}
+		for _, en := range ct.Ensures {
+			if strings.Contains(strings.ReplaceAll(en.Text, " ", ""), "fresh(result") {
+				return fmt.Errorf("%s: contract of %s is `pure` and ensures fresh(result...): inconsistent for repeated calls", en.Line, ct.Key)
+			}
+		}
+	}
+	return nil
+}
+
 func (eng *Engine) computePurity() {
 	changed := true
 	for _, fi := range eng.funcs {
